@@ -37,8 +37,8 @@ def app_name(t):
     return t[1] if isinstance(t, tuple) and t and t[0] == 'app' else None
 
 
-def run(ctx, prog):
-    A = Auditor(ctx, prog)
+def run(ctx, prog, only=None):
+    A = Auditor(ctx, prog, only=only)
     S = prog.structs
     CM = S['Resolver'].index('command_map')
 
@@ -247,7 +247,7 @@ def run(ctx, prog):
             at = p.find_calls(r'attach_handler$')
             if len(at) != 1 or strip(at[0].args[0]) != ('leaf', 'self'):
                 return 'not one attach_handler call on this resolver'
-            if 'DIDJwk::METHOD' not in term_str(at[0].args[1]):
+            if 'DIDJwk::METHOD' not in term_str(at[0].args[1]) and not any(s_ == ('const', b'jwk') for s_ in subterms(at[0].args[1])):
                 return 'the did:jwk handler is not registered under DIDJwk::METHOD'
             return None
         A.require('Resolver::attach_did_jwk_handler[%s]/registered-under-the-jwk-method' % kind, ps, r_jwk, replay=R('[jwk]'))
@@ -337,6 +337,8 @@ def run(ctx, prog):
 
     # ----------------------------------------------------------------------------------------- resolve_multiple: per-DID future
     def candidate(name, why, rep):
+        if not A.wants(name):
+            return
         # the shape the requirement reads is gone (refactored code): a candidate, decided by the native battery - never a pass
         from replay import run_replay
         res = run_replay(rep)
